@@ -66,7 +66,7 @@ def tasks(tier):
     # "in the documented order, over the same neighbours" is C03's contract:
     # its obligations are re-checked here (dep.*) so that a change to the
     # shared code generation that breaks this property fails this check too
-    return ['symbols', 'set_kernel', 'closure', 'wiring', 'canary',
+    return ['symbols', 'set_kernel', 'closure', 'wiring', 'wrapper', 'canary',
             'dep:skeleton',
             'dep:range', 'dep:determinism', 'dep:group_calls', 'dep:carry',
             'dep:bounded']
@@ -263,6 +263,8 @@ def run_task(task, ctx):
         return task_closure(ctx, repo)
     if task == 'wiring':
         return task_wiring(ctx, repo)
+    if task == 'wrapper':
+        return task_wrapper(ctx, repo)
     if task == 'canary':
         x = z3.Real('cx')
         ctx.canary('canary.must_fail', Obligation('c', [], WF(x, x, x, x, x)
@@ -470,7 +472,8 @@ def task_wiring(ctx, repo):
                      'loop_all': ['self', 'd_idx', 'd_x', 's_x', 'NBRS',
                                   'N_NBRS'],
                      'initialize_pair': ['self', 'd_idx', 'd_au', 't'],
-                     'reduce': ['self', 'dst', 't', 'dt']})
+                     'reduce': ['self', 'dst', 't', 'dt'],
+                     'py_initialize': ['self', 'dst', 't', 'dt']})
     eqs = {'eq0': e0, 'eq1': e1}
 
     def argspec(e, s_, a, k, n):
@@ -522,8 +525,11 @@ def task_wiring(ctx, repo):
         outs = ex.exec_function(f2, dict(self=obj))
         ctx.function(m, f2, cls + '.get_py_initialize_code', ex.dropped)
         got = outs[0].value if len(outs) == 1 else None
+        # one call per equation that defines py_initialize, in order
         w = ('with profile_ctx("AccelerationEval.grp.py_initialize"):\n'
-             '    self.all_equations["eq0"].py_initialize(dst.array, t, dt)')
+             '    self.all_equations["eq0"].py_initialize(dst.array, t, dt)\n'
+             'with profile_ctx("AccelerationEval.grp.py_initialize"):\n'
+             '    self.all_equations["eq1"].py_initialize(dst.array, t, dt)')
         obs.append(Obligation('wiring.py_initialize', [], z3.BoolVal(
             got == w), W, extra=dict(emitted=str(got)[:300],
                                      documented=w)))
@@ -532,6 +538,117 @@ def task_wiring(ctx, repo):
         return
     ctx.prove('wiring.methods_are_called_with_their_own_arguments', obs,
               replay=replay_wiring)
+
+
+# ------------------------------------------------------ array wrappers
+def task_wrapper(ctx, repo):
+    """The generated evaluator reads particle data through
+    ParticleArrayWrapper objects.  On the static Cython of the template:
+    set_array(pa) binds self.array, self.name and EVERY property (tag, pid,
+    gid included) and EVERY constant of pa to pa.get_carray(name) -- also
+    when it is called again with another array; __init__ and
+    AccelerationEval.update_particle_arrays go through set_array, the latter
+    on the wrapper named after each array."""
+    import os
+    import re
+    import textwrap
+    MAKO_AE = 'pysph/sph/acceleration_eval_cython.mako'
+    with open(os.path.join(repo.root, MAKO_AE)) as f:
+        txt = f.read()
+    W = os.path.join(repo.root, MAKO_AE)
+    try:
+        a = txt.index('cdef class ParticleArrayWrapper:')
+        b = txt.index('# ####', a)
+        frag = txt[a:b]
+        frag = '\n'.join(l for l in frag.split('\n') if '${' not in l)
+        u0 = txt.index('    def update_particle_arrays(self, particle_arrays):')
+        u1 = txt.index('    cpdef compute(', u0)
+        upd = textwrap.dedent(txt[u0:u1])
+        if '${' in upd or '${' in frag:
+            raise VCError('mako expression inside the static wrapper code')
+        src = frag + '\ncdef class AccelerationEvalStatic:\n' + \
+            textwrap.indent(upd, '    ')
+        m = repo.cython_from_text('ae_wrapper_static', src, MAKO_AE)
+    except (ValueError, VCError, KeyError) as e:
+        ctx.outside('wrapper', 'static wrapper code not found: %s' % e)
+        return
+    obs = []
+
+    def mk_pa(tag, props, consts):
+        return SymObject(None, dict(
+            name='NAME_' + tag,
+            properties={p_: ('prop', tag, p_) for p_ in props},
+            constants={c_: ('const', tag, c_) for c_ in consts},
+            get_carray=Native(lambda e, s_, a, k, n: ('carray', tag, a[0]))),
+            'pa_' + tag)
+    pa1 = mk_pa('one', ['x', 'rho', 'tag', 'pid', 'gid'], ['c0', 'cmax'])
+    pa2 = mk_pa('two', ['x', 'rho', 'tag', 'pid', 'gid'], ['c0', 'cmax'])
+    cls = 'ParticleArrayWrapper'
+    fn_init = m.methods(cls)['__init__']
+    fn_set = m.methods(cls)['set_array']
+    ctx.function(m, fn_init, cls + '.__init__')
+    ctx.function(m, fn_set, cls + '.set_array')
+
+    def bound_to(obj, pa, tag):
+        at = obj.attrs
+        ok = at.get('array') is pa and at.get('name') == 'NAME_' + tag
+        why = 'array/name %r %r' % (at.get('array'), at.get('name'))
+        for nm in ['x', 'rho', 'tag', 'pid', 'gid', 'c0', 'cmax']:
+            if at.get(nm) != ('carray', tag, nm):
+                ok = False
+                why = 'attribute %s is %r' % (nm, at.get(nm))
+        return ok, why
+    try:
+        obj = SymObject(cls, {}, 'self')
+        obj.module = m
+        ex = Executor(repo, m, qualname=cls + '.__init__', merge=False,
+                      inline={cls + '.set_array'})
+        outs = ex.exec_function(fn_init, dict(self=obj, pa=pa1, index=3))
+        ok = len(outs) == 1
+        why = '%d paths' % len(outs)
+        if ok:
+            me = outs[0].state.env['self']
+            ok, why = bound_to(me, pa1, 'one')
+            ok = ok and me.attrs.get('index') == 3
+        obs.append(Obligation('wrapper.init_binds_everything', [],
+                              z3.BoolVal(bool(ok)), W, extra=dict(why=why)))
+        # the same object handed another array
+        if len(outs) == 1:
+            me = outs[0].state.env['self']
+            ex2 = Executor(repo, m, qualname=cls + '.set_array', merge=False)
+            outs2 = ex2.exec_function(fn_set, dict(self=me, pa=pa2),
+                                      outs[0].state)
+            ok2 = len(outs2) == 1
+            why2 = '%d paths' % len(outs2)
+            if ok2:
+                ok2, why2 = bound_to(outs2[0].state.env['self'], pa2, 'two')
+            obs.append(Obligation('wrapper.set_array_rebinds_everything', [],
+                                  z3.BoolVal(bool(ok2)), W,
+                                  extra=dict(why=why2)))
+        # update_particle_arrays -> set_array of the wrapper of that name
+        fu = m.methods('AccelerationEvalStatic')['update_particle_arrays']
+        ctx.function(m, fu, 'AccelerationEval.update_particle_arrays')
+        calls = []
+
+        def wrap(nm):
+            return SymObject(None, dict(set_array=Native(
+                lambda e, s_, a, k, n: calls.append((nm, a[0])))), 'w_' + nm)
+        ae = SymObject('AccelerationEvalStatic', dict(
+            NAME_one=wrap('NAME_one'), NAME_two=wrap('NAME_two')), 'self')
+        ae.module = m
+        ex3 = Executor(repo, m, qualname='AccelerationEval.'
+                       'update_particle_arrays', merge=False)
+        outs3 = ex3.exec_function(fu, dict(self=ae,
+                                           particle_arrays=[pa2, pa1]))
+        ok3 = len(outs3) == 1 and calls == [('NAME_two', pa2),
+                                            ('NAME_one', pa1)]
+        obs.append(Obligation('wrapper.update_goes_through_set_array', [],
+                              z3.BoolVal(bool(ok3)), W,
+                              extra=dict(calls=str(calls)[:200])))
+    except VCError as e:
+        ctx.outside('wrapper', str(e))
+        return
+    ctx.prove('wrapper.arrays_and_constants_are_rebound', obs)
 
 
 def replay_wiring(model, ob):
@@ -562,6 +679,16 @@ got = [l for l in g._get_code(None, 'loop').split('\n') if l.startswith('self.')
 w = ['self.eq0.loop(d_idx, s_idx, d_au, s_m, DWIJ, WIJ, self.kernel, dt, t)', 'self.eq1.loop(s_idx, d_idx, XIJ)']
 if got != w and bad is None:
     bad = dict(kind='loop', emitted=got, documented=w)
+class P0(mod.Equation):
+    def py_initialize(self, dst, t, dt): pass
+class P1(mod.Equation):
+    def py_initialize(self, dst, t, dt): pass
+g2 = mod.CythonGroup([P0('f', ['f']), P1('f', ['f'])])
+g2.equations[0].var_name = 'p0'; g2.equations[1].var_name = 'p1'
+got = [l.strip() for l in g2.get_py_initialize_code().split('\n') if 'py_initialize(' in l]
+w = ['self.all_equations["p0"].py_initialize(dst.array, t, dt)', 'self.all_equations["p1"].py_initialize(dst.array, t, dt)']
+if got != w and bad is None:
+    bad = dict(kind='py_initialize of two equations of one group', emitted=got, documented=w)
 print(json.dumps(dict(bad=bad)))
 """
     from pyvc.repo import REPO_ROOT
